@@ -121,7 +121,7 @@ var CfgC06 = reg(&MachineCfg{
 var CfgC12 = reg(&MachineCfg{
 	Prop: "C12",
 	Gens: []interface{}{"pnft", 76, "commit", 16, "crash", 2, "export", 3, "bank", 1, "walks", 2},
-	Bias: map[string]int{"right-signers": 93, "exec": 3, "adversarial-ids": 1},
+	Bias: map[string]int{"right-signers": 95, "exec": 2, "adversarial-ids": 1, "by-owner": 90, "former-owner": 5, "pnft-transfer": 5},
 	Rule: "PNFT machine over adversarial identifiers (prefixes of one another, separators, invalid UTF-8, 300-byte ids, NUL while not excluded by an open finding); after every tx the decoded store equals the model, after every commit every single-item view and listing (tokens of denom, by owner, denoms paged, denoms by owner) is compared for all pool arguments; completeness: a fresh pair minted by the denom owner is accepted; non-trivial = >=2 denoms, >=3 tokens minted, a transfer and a burn",
 	NonTrivial: func(w *world.World) bool {
 		return lab(w, "pnft denom created") >= 2 && lab(w, "pnft minted") >= 3 && lab(w, "pnft transferred") > 0 && lab(w, "pnft burned") > 0
